@@ -1418,6 +1418,27 @@ def run_reassign(case):
                     f"parameters gives {fresh[k]:.6g} (before the change "
                     f"{before[k]:.6g})",
             "mechanism": "stale-after-reassign", "detail": {"attr": attr}})
+    # real-time and imaginary-time (Matsubara) integrals of ONE object at the
+    # same argument, asked in both orders
+    pm = dict(p3 if False else p, temperature=max(p["temperature"], 0.8))
+    o_mr, o_rm = oqupy.PowerLawSD(**pm), oqupy.PowerLawSD(**pm)
+    xs = [dt, 2 * dt]
+    mr = [(o_mr.eta_function(x, matsubara=True), o_mr.eta_function(x))
+          for x in xs]
+    rm = [(o_rm.eta_function(x), o_rm.eta_function(x, matsubara=True))
+          for x in xs]
+    for (m_a, r_a), (r_b, m_b), x in zip(mr, rm, xs):
+        if abs(m_a - m_b) > 1e-12 * max(1.0, abs(m_b)) or \
+                abs(r_a - r_b) > 1e-12 * max(1.0, abs(r_b)) or \
+                abs(np.imag(m_a)) > 0:
+            violations.append({
+                "what": f"eta_function({x:.4g}) asked in real time and in "
+                        f"imaginary time on one object depends on the order "
+                        f"of the two questions: Matsubara first gives "
+                        f"({m_a:.6g}, {r_a:.6g}), real time first "
+                        f"({m_b:.6g}, {r_b:.6g})",
+                "mechanism": "stale-after-reassign", "detail": {}})
+            break
     cp_vals = observe(cp)
     dev_cp = float(np.abs(cp_vals - before).max()) / float(
         np.abs(before).max())
